@@ -8,7 +8,7 @@ IO_ASM = "std::io::Read/Write + byteorder contracts (prelude/base.rs): sized rea
 DUPLEX_ASM = "transport duplex axiom (prelude/base.rs axiom_duplex): reading does not change what was written and vice versa (rule R3 adds the marker bound)"
 
 # units under construction: never part of a property check
-DEV_UNITS = {"codec16"}
+DEV_UNITS = set()
 
 PROPERTIES = {
     "C13": dict(
@@ -40,10 +40,15 @@ PROPERTIES.update({
         design_ref="DESIGN.md §7 C08"),
     "C09": dict(
         scope="rgb565torgb32 is proved equal, byte for byte and for all 65536 colours, to exact rounding of the 5/6/5-bit channels to 8 bits (B,G,R,0xff); raw 16 bpp and raw 32 bpp "
-              "bitmaps are proved to come out top-down (row h-1-i of the wire image is row i of the result) with the 16 bpp pixels widened; the planar (32 bpp) and interleaved (16 bpp) RLE "
-              "decoders are covered for safety (C08) and by a bounded Kani comparison in the thorough tier, not by an unbounded functional proof",
-        technique="contract-based deductive verification (Verus) for widening and row order; bounded Kani stand-in for the RLE decoders' functional part",
-        level_note="the spec functions round5/round6/flip32/raw16 are written from MS-RDPBCGR 2.2.9.1.1.3.1.2.2 and the definition of rounding, not from the code; RLE functional equivalence is NOT proved unboundedly",
+              "bitmaps are proved to come out top-down (row h-1-i of the wire image is row i of the result) with the 16 bpp pixels widened; planar 32 bpp (process_plane / rle_32_decompress, unit codec): "
+              "functional proof against a transcription of MS-RDPEGDI 3.1.9 (run / raw segments, delta rows with the sign-in-LSB rule, plane order A,R,G,B into byte offsets 3,2,1,0); interleaved 16 bpp "
+              "(rle_16_decompress, unit codec16): functional proof against a pixel-granular transcription of MS-RDPBCGR 2.2.9.1.1.3.1.2.4 / 3.1.9 (all 256 order headers, regular / lite / MEGA_MEGA lengths, SET_FG, "
+              "first-scanline and insert-fg-pel rules, all 11 repeat! sites): every decoded pixel (rr, c) sits at output[(height-1-rr)*width + c], everything else is unchanged. EXCLUDED from the interleaved proof "
+              "(predicate rle16_excluded, stated in the contract): streams with a zero-length MEGA_MEGA order, and FGBG-class orders of >= 8 pixels on bitmaps wider than 8 pixels (the two 8x-unrolled FGBG loops are proved "
+              "SAFE only; their single-statement remainder loops are proved functionally)",
+        technique="contract-based deductive verification (Verus): spec functions transcribed from the documents, loop invariants relating the ghost decode prefix to the output; thorough tier adds bounded Kani comparisons against an executable reference",
+        level_note="the spec functions round5/round6/flip32/raw16/planar/rle16_decode are written from MS-RDPBCGR / MS-RDPEGDI and the definition of rounding, not from the code; thorough tier (kani/harnesses.json): rgb565 over all colours (complete), "
+                   "rle_16 vs reference for all 1-byte streams on 3x2 and process_plane vs reference for all 4-byte streams on 1x2 (BOUNDED, labelled so, never counted as proved)",
         assumptions=[IO_ASM, "64-bit usize"],
         design_ref="DESIGN.md §7 C09"),
 })
@@ -54,9 +59,9 @@ PROPERTIES.update({
               "(source and destination ranges inside the two vectors) holds at the call on every path; no arithmetic overflow for any u16 geometry and any usize width; inverted rectangles "
               "are refused with the buffer untouched; for rectangles inside the window the buffer afterwards equals the old buffer with exactly the rectangle's rows replaced by the rows of the decoded image",
         technique="contract-based deductive verification: Verus (z3), function text extracted from src/bin/mstsc-rs.rs on every run",
-        level_note="trusted (rule R5): ptr::copy_nonoverlapping is replaced by prelude copy_rows whose precondition is the pointer-safety contract; transmute_vec<u8,u32> is a prelude stub (len/4 little-endian words); "
+        level_note="trusted (rule R5): ptr::copy_nonoverlapping is replaced by prelude copy_rows whose precondition is the pointer-safety contract; transmute_vec (real body, generic): length and capacity handed to Vec::from_raw_parts describe no more bytes than the source vector owns and the result has len*size_of::<S>()/size_of::<T>() elements (raw pointer cast, forget and from_raw_parts are prelude stand-ins); "
                    "the layout UB of re-typing the allocation is outside any contract; BitmapEvent::decompress by its contract (proved in unit codec)",
-        assumptions=["rule R5: copy_rows / transmute_vec contracts stand for the unsafe code", "transmute_vec's dealloc-layout UB not modelled", "64-bit usize"],
+        assumptions=["rule R5: copy_rows, vec_as_mut_ptr, capacity_of, RawBuf::cast, vec_from_raw_parts and the little-endian re-typing axiom stand for the raw-pointer operations of the unsafe code", "transmute_vec's dealloc-layout UB not modelled", "64-bit usize"],
         design_ref="DESIGN.md §7 C19"),
 })
 
@@ -217,6 +222,7 @@ UNVERIFIED = {
             "BER/DER wrappers of src/nla/asn1.rs over the yasna crate: not under contract",
             "gcc conference create request/response round trip: only the PER prefix and Version::from are covered (unit mcs)",
             "write_numeric_string is correct only for one-digit strings (its single caller): outside the claimed domain"],
-    "C09": ["planar RLE (process_plane / rle_32_decompress) functional equivalence with MS-RDPEGDI 3.1.9: not proved (safety only)",
-            "interleaved RLE (rle_16_decompress) functional equivalence with MS-RDPBCGR 3.1.9: not proved (safety only)"],
+    "C09": ["interleaved RLE: the two 8x-unrolled FGBG loops of rle_16_decompress (FGBG-class orders of >= 8 pixels on bitmaps wider than 8 px) are proved safe, not functionally (6^8 paths per iteration: no formulation closed within rlimit 400)",
+            "interleaved RLE: streams with a zero-length MEGA_MEGA order are outside the contract (the code keeps a stale insert-fg-pel flag there and accepts the non-order 0xF5 00 00: observations, DESIGN.md section 0.7)",
+            "a background run that crosses the end of the first scanline followed by another background run: the code inserts the foreground pel, MS-RDPBCGR's pseudo-code clears the flag at the scanline change (found by the bounded Kani comparison; conforming encoders do not emit such runs)"],
 }
